@@ -30,7 +30,7 @@ OPTOPT = ["N", "JN", "JJ0", "JJ1", "JJ2"]
 EITH = ["F0", "F1", "F2", "S0", "S1", "S2"]
 EE = ["F0", "F1", "F2"] + ["S" + e for e in EITH]
 VAR = [a + d for a in "ABC" for d in D]
-OUTCOMES = ["R0", "R1", "R2", "X0", "X1", "X2", "Y"]
+OUTCOMES = ["R0", "R1", "R2", "X0", "X1", "X2", "Z0", "Z1", "Z2", "Y"]
 
 
 def tables(vals, n=3):
@@ -58,8 +58,39 @@ def rtable(r, vals, n):
     return "".join(r.choice(vals) for _ in range(n))
 
 
+_REJECTED = []     # generated lines the model rejected (must stay empty: both sides answering `bad-op` would agree)
+_OP_MIX = {}       # operation kind -> number of generated lines
+
+
 def nontrivial(op, result):
+    t = op.split()
+    kind = t[1] if t[0] == "all9" else t[0]
+    _OP_MIX[kind] = _OP_MIX.get(kind, 0) + 1
+    if result == "bad-op":
+        _REJECTED.append(op)
     return not (result.endswith("| -") and result.startswith("N "))
+
+
+def driver_op_kinds():
+    """the operation kinds `handle1` of the Lean driver knows, read off its source"""
+    import os
+    import re
+    src = open(os.path.join(os.path.dirname(os.path.dirname(os.path.abspath(__file__))), "lean", "FcpptModel", "Drv", "C04.lean")).read()
+    return sorted(set(re.findall(r'^  \| \["([a-z0-9_.]+)"', src, flags=re.M)))
+
+
+def extra_checks(binp, rng, tier, ev):
+    """not a model/implementation diff: every generated line must be accepted by the model, and every operation kind of
+    the driver must have been generated"""
+    out = []
+    if _REJECTED:
+        out.append({"kind": "broken-correspondence",
+                    "what": f"{len(_REJECTED)} generated operation line(s) are rejected (bad-op) by the model, e.g. {_REJECTED[:3]}"})
+    missing = [k for k in driver_op_kinds() if k not in _OP_MIX]
+    if _OP_MIX and missing:
+        out.append({"kind": "broken-correspondence", "what": f"operation kinds of the driver that no batch generates: {missing}"})
+    ev.setdefault("coverage", {})["op_mix"] = dict(sorted(_OP_MIX.items()))
+    return out
 
 
 def weight(op):
@@ -274,9 +305,40 @@ def blind_spot_batches(rng, tier):
     ops += [f"e.match_ref {c} {e}" for c, e in prod(LC, EITH)]
     ops += [f"v.match_ref {c} {v}" for c, v in prod(LC, VAR)]
     ops += [f"v.apply_ref {c} {v}" for c, v in prod(LC, VAR)]
+    ops += [f"o.to_exc_ref {c} {o}" for c, o in prod(LC, OPT)]
+    ops += [f"e.to_exc_ref {c} {e}" for c, e in prod(LC, EITH)]
     yield Batch("reference-results", ops, exhaustive=True,
                 note="maybe / either-match / variant-match / variant-apply with continuations that return a reference to the payload "
                      "of their argument: the result must be the object inside the source (`in:`), not a temporary (`other:` / ASan)")
+
+    # ---- constructors
+    ops = [f"o.ctor {c} {v}" for c, v in prod(CATS, D)]
+    ops += [f"e.ctor {c} {k} {v}" for c, k, v in prod(CATS, "FS", D)]
+    ops += [f"v.ctor {c} {v}" for c, v in prod(CATS, VAR)]
+    yield Batch("constructors", ops, exhaustive=True, note="object_impl.hpp constructors of optional / either / variant from an lvalue, const lvalue, rvalue: an lvalue argument is unchanged")
+
+    # ---- containers longer than the exhaustive scope
+    def rlist(vals, lo=5, hi=14):
+        return "[" + "".join(r.choice(vals) for _ in range(r.range(lo, hi - 1))) + "]"
+
+    def mostly(vals, good, p=6):
+        # long runs of `good` elements so that the interesting element is far from the front
+        return "[" + "".join(r.choice(good) if r.below(p) else r.choice(vals) for _ in range(r.range(5, 13))) + "]"
+
+    ops = []
+    kk = 400 if thorough else 120
+    for _ in range(kk):
+        c = r.choice(CATS)
+        ops.append(f"o.cat {c} {rlist(OPT)}")
+        ops.append(f"o.seq {c} {mostly(OPT, OPT[1:])}")
+        ops.append(f"o.cat.ld {c} {rlist(OPT)}")
+        ops.append(f"o.seq.dl {c} {mostly(OPT, OPT[1:])}")
+        ops.append(f"e.seq R {mostly(EITH, EITH[3:])}")
+        ops.append(f"e.first {mostly(EITH + ['X'], EITH[:3])}")
+        ops.append(f"e.loop {mostly(EITH, EITH[3:])} {r.choice(['uuu', 'uuu', rtable(r, 'uX', 3)])}")
+        ops.append(f"e.seq_err {c} {rlist(D)} {rtable(r, ['u', 'u', 'u', '0', '1', '2', 'X'], 3)}")
+    yield Batch("long-containers", ops, note="cat sequence either-sequence first_success loop sequence_error on containers of length 5..13 "
+                                             "(past the exhaustive scope and past several vector reallocations), sampled")
 
     # ---- other container types
     lo = lists(OPT)
